@@ -5,6 +5,7 @@ package main
 
 import (
 	"fmt"
+	"go/ast"
 	"go/token"
 	"go/types"
 	"strings"
@@ -286,7 +287,38 @@ func (fr *Frame) callByContract(fc *FuncContract, sig *types.Signature, srcNames
 	if !fc.HasAssigns {
 		c.note("contract of " + what + " has no assigns clause: treated as assigning nothing")
 	}
+	// ensures of the form  X.cells == upd(old(X.cells), K, V)  are executed as a
+	// direct array update (keeps read-over-write simplification available)
+	direct := map[string]*Clause{}
+	for _, cl := range fc.Clauses {
+		if cl.Kind == "ensures" {
+			if tgt, _, _, ok := updPattern(cl.Expr); ok {
+				direct[tgt+".cells"] = cl
+			}
+		}
+	}
+	done := map[*Clause]bool{}
 	for _, a := range fc.Assigns {
+		a = strings.TrimSpace(a)
+		if cl, ok := direct[a]; ok {
+			tgt, kx, vx, _ := updPattern(cl.Expr)
+			if xv, ok := env.lookup(tgt); ok {
+				if iv, ok := xv.(IfaceV); ok {
+					k := c.eval(env, kx).(T)
+					v := c.eval(env, vx).(T)
+					es := SReal
+					if iv.Typ != nil && isNDIface(iv.Typ) {
+						es = ndElemSort(iv.Typ)
+					}
+					name := "ND.cells." + string(es)
+					h := c.heap(st, name, heapSort(es))
+					inner := c.sto(c.sel(h, iv.Ref), k, v)
+					c.setHeap(st, name, c.def("Hc", c.sto(h, iv.Ref, inner)), &iv.Ref)
+					done[cl] = true
+					continue
+				}
+			}
+		}
 		fr.havocTarget(env, st, a)
 	}
 	// results
@@ -305,12 +337,50 @@ func (fr *Frame) callByContract(fc *FuncContract, sig *types.Signature, srcNames
 		}
 	}
 	for _, cl := range fc.Clauses {
-		if cl.Kind != "ensures" {
+		if cl.Kind != "ensures" || done[cl] {
 			continue
 		}
 		c.assume(st.reach, c.evalBool(post, cl.Expr))
 	}
 	return out
+}
+
+// updPattern matches  X.cells == upd(old(X.cells), K, V).
+func updPattern(e ast.Expr) (target string, k, v ast.Expr, ok bool) {
+	be, isBin := e.(*ast.BinaryExpr)
+	if !isBin || be.Op != token.EQL {
+		return
+	}
+	lhs, isSel := be.X.(*ast.SelectorExpr)
+	if !isSel || lhs.Sel.Name != "cells" {
+		return
+	}
+	x, isId := lhs.X.(*ast.Ident)
+	if !isId {
+		return
+	}
+	call, isCall := be.Y.(*ast.CallExpr)
+	if !isCall || len(call.Args) != 3 {
+		return
+	}
+	if f, isF := call.Fun.(*ast.Ident); !isF || f.Name != "upd" {
+		return
+	}
+	oc, isOld := call.Args[0].(*ast.CallExpr)
+	if !isOld || len(oc.Args) != 1 {
+		return
+	}
+	if f, isF := oc.Fun.(*ast.Ident); !isF || f.Name != "old" {
+		return
+	}
+	os_, isSel2 := oc.Args[0].(*ast.SelectorExpr)
+	if !isSel2 || os_.Sel.Name != "cells" {
+		return
+	}
+	if ox, isId2 := os_.X.(*ast.Ident); !isId2 || ox.Name != x.Name {
+		return
+	}
+	return x.Name, call.Args[1], call.Args[2], true
 }
 
 // havocTarget havocs one assigns target, e.g. "x.cells", "s[*]", "p.Field", "*".
@@ -334,7 +404,7 @@ func (fr *Frame) havocTarget(env *Env, st *State, target string) {
 		}
 		name := "H." + string(s.Elem)
 		h := c.heap(st, name, heapSort(s.Elem))
-		c.setHeap(st, name, c.def("Hc", sto(h, s.ID, c.fresh("cells", arrSort(s.Elem)))), &s.ID)
+		c.setHeap(st, name, c.def("Hc", c.sto(h, s.ID, c.fresh("cells", arrSort(s.Elem)))), &s.ID)
 		return
 	}
 	if i := strings.LastIndex(target, "."); i > 0 {
@@ -352,7 +422,7 @@ func (fr *Frame) havocTarget(env *Env, st *State, target string) {
 				}
 				name := "ND.cells." + string(k)
 				h := c.heap(st, name, heapSort(k))
-				c.setHeap(st, name, c.def("Hc", sto(h, x.Ref, c.fresh("cells", arrSort(k)))), &x.Ref)
+				c.setHeap(st, name, c.def("Hc", c.sto(h, x.Ref, c.fresh("cells", arrSort(k)))), &x.Ref)
 				return
 			}
 		case StructPtr:
@@ -396,11 +466,11 @@ func (fr *Frame) builtin(name string, cc *ssa.CallCommon, args []Val, st *State,
 		n := c.def("len", app(SInt, "+", s.Len, t.Len))
 		c.nsym++
 		q := fmt.Sprintf("q_k_%d", c.nsym)
-		srcS := sel(h, s.ID)
-		srcT := sel(h, t.ID)
+		srcS := c.sel(h, s.ID)
+		srcT := c.sel(h, t.ID)
 		c.assume(tTrue, T{fmt.Sprintf("(forall ((%s Int)) (! (=> (and (<= 0 %s) (< %s %s)) (= (select %s %s) (ite (< %s %s) (select %s (+ %s %s)) (select %s (+ %s (- %s %s)))))) :pattern ((select %s %s))))",
 			q, q, q, n.S, arr.S, q, q, s.Len.S, srcS.S, s.Off.S, q, srcT.S, t.Off.S, q, s.Len.S, arr.S, q), SBool})
-		c.setHeap(st, name, c.def("H", sto(h, id, arr)), &id)
+		c.setHeap(st, name, c.def("H", c.sto(h, id, arr)), &id)
 		c.note("append always yields a fresh backing array (capacity is not modelled)")
 		return SliceV{id, intLit(0), n, s.Elem, s.ElemT}
 	case "copy":
@@ -412,12 +482,12 @@ func (fr *Frame) builtin(name string, cc *ssa.CallCommon, args []Val, st *State,
 		arr := c.fresh("cpy", arrSort(d.Elem))
 		c.nsym++
 		q := fmt.Sprintf("q_k_%d", c.nsym)
-		dst := sel(h, d.ID)
-		src := sel(h, s.ID)
+		dst := c.sel(h, d.ID)
+		src := c.sel(h, s.ID)
 		// arr[k] = src[s.off + (k - d.off)] for d.off <= k < d.off+n ; else dst[k]
 		c.assume(tTrue, T{fmt.Sprintf("(forall ((%s Int)) (! (= (select %s %s) (ite (and (<= %s %s) (< %s (+ %s %s))) (select %s (+ %s (- %s %s))) (select %s %s))) :pattern ((select %s %s))))",
 			q, arr.S, q, d.Off.S, q, q, d.Off.S, n.S, src.S, s.Off.S, q, d.Off.S, dst.S, q, arr.S, q), SBool})
-		c.setHeap(st, name, c.def("H", sto(h, d.ID, arr)), &d.ID)
+		c.setHeap(st, name, c.def("H", c.sto(h, d.ID, arr)), &d.ID)
 		return n
 	case "print", "println":
 		return TupleV{}
